@@ -862,6 +862,13 @@ func scanBound(y ssa.Value, start ssa.Value) (bool, string) {
 			}
 		}
 	}
+	// k x Size() tries, k a positive constant: a retry loop over a scheduler that may repeat a slot visits every slot at least
+	// as often as a plain scan does
+	if k, ok := sizeMultiple(y); ok && k > 1 {
+		if s, ok := constInt(start); ok && s == 0 {
+			return true, fmt.Sprintf("%d x HostSet.Size() from 0", k)
+		}
+	}
 	if _, f, _, ok := loadedField(y); ok && f == "choice" {
 		return true, "sampling loop bounded by lb.choice (falls back to a full scan elsewhere)"
 	}
